@@ -24,6 +24,9 @@ recording branch reads. K6: _dump_conflicts creates helper files with suffixes T
 name + "." + suffix, and conflicts.py lists the same set as CONFLICT_SUFFIXES / TextConflict.associated_filenames;
 TextConflict._resolve swaps the item with item.<winner> and re-versions the winner; action_take_this / action_take_other
 resolve with "THIS" / "OTHER".
+Added while testing against seeded changes: Also: Conflict.cleanup deletes each associated file inside the loop and a
+swallowed FileNotFoundError continues with the next file; resolve() runs cleanup after a successful do() and keeps a
+conflict only on NotImplementedError.
 Does not decide: that Merge3 yields markers exactly for conflicting regions (library), nor sentinel collisions with user text.
 """
 #: (class, conflict indicator, roles of the locals the indicator names — bound by what they hold, see astutil.bind_roles)
